@@ -30,7 +30,7 @@ Theorem C08_init_admissible : forall l1 maxKB start stop,
   a_maxSmall a <= a_maxMedium a /\ a_maxMedium a <= N.sqrt stop /\
   (a_bigUsed a = true -> isPow2 (a_sieveSize a) = true /\ 16384 <= a_sieveSize a) /\
   a_segLow a mod 30 = 0 /\ a_segLow a + 7 <= start /\ start <= a_segLow a + 36 /\
-  a_segHigh a <= stop.
+  a_segHigh a <= stop /\ a_segHigh a = N.min (a_segLow a + 30 * a_sieveSize a + 6) stop.
 Proof. exact initAlgorithms_admissible. Qed.
 Print Assumptions C08_init_admissible.
 
